@@ -17,7 +17,7 @@ impl Parser for Typedef {
                 tag("typedef"),
                 blank,
                 Type::parse,
-                blank,
+                opt(blank),
                 Ident::parse,
                 opt(blank),
                 opt(Annotations::parse),
